@@ -5,7 +5,7 @@ import re
 from . import mirlib as M
 from . import symex as S
 from . import automata as A
-from .common import BaseModel, run_fn, ret_paths, heap_writes, field_path, callers_of, is_derived
+from .common import BaseModel, run_fn, ret_paths, heap_writes, field_path, callers_of, is_derived, owners
 
 X0, X1 = ("sym", "x0"), ("sym", "x1")
 EXPECTED = {
@@ -177,18 +177,19 @@ def analyze(ctx, want):
                "%s is called from %s%s" % (callee.strip("$"), fn.name, "" if ok else " (not one of the builders)"), fn.loc(bb))
     # direct writes of the state graph fields outside the builders
     for adt, fld, who in (("Nfa", "states", r"Nfa::(add_state|add_transition|add_epsilon_transition|shift_ids|append|concat|alternation|try_from_ast|new)$"),
-                          ("Nfa", "start_state", r"Nfa::(set_start_state|shift_ids|new)$"),
-                          ("Nfa", "end_state", r"Nfa::(set_end_state|shift_ids|new)$"),
+                          ("Nfa", "start_state", r"Nfa::(set_start_state|shift_ids|new|concat|alternation|zero_or_one|one_or_more|zero_or_more|try_from_ast)$"),
+                          ("Nfa", "end_state", r"Nfa::(set_end_state|shift_ids|new|concat|alternation|zero_or_one|one_or_more|zero_or_more|try_from_ast)$"),
                           ("NfaState", "transitions", r"(NfaState::offset|Nfa::add_transition)$"),
                           ("NfaState", "epsilon_transitions", r"(NfaState::offset|Nfa::add_epsilon_transition)$")):
-        for fn in F.fns.values():
-            if is_derived(fn):
+        for fn0 in F.fns.values():
+            if is_derived(fn0):
                 continue
-            dw = F.direct_writes(fn)
+            dw = F.direct_writes(fn0)
             for (a, f_), sites in dw.items():
                 if f_ == fld and a.endswith("::" + adt):
-                    ok = re.search(who, fn.name) is not None
-                    ob("C02.b", "writer:%s.%s<-%s" % (adt, fld, M.short_name(fn.name)), ok, "%s writes %s.%s" % (fn.name, adt, fld), fn.loc(sites[0][0]))
+                    for fn, b2 in owners(F, fn0):
+                        ok = re.search(who, fn.name) is not None
+                        ob("C02.b", "writer:%s.%s<-%s" % (adt, fld, M.short_name(fn.name)), ok, "%s writes %s.%s" % (fn.name, adt, fld), fn.loc(b2 if b2 is not None else sites[0][0]))
     # shift_ids offsets every state id
     so = F.fn(r"internal::nfa::NfaState::offset$")
     ctx.analysed_fn(so)
